@@ -8,7 +8,8 @@ Every function is written once over `Scalar K`; the driver runs `K = CF` (comple
 
 External calls, by documented semantics: `fftconvolve` (autocorr) = the direct lagged sum;
 `scipy.linalg.toeplitz(c)` = Hermitian Toeplitz (first row `conj c`); `scipy.linalg.solve` =
-a parameter `solve` (the driver plugs in Gauss–Jordan elimination `Mat.solveVec`);
+a parameter `solve` (the driver plugs in `GMat.solve` = Gauss–Jordan inverse times right-hand side,
+proved to satisfy the contract whenever it returns: `Lemmas/GaussJordan.lean`);
 `scipy.signal.freqz(b, a, worN=n, whole)` = ratio of the two polynomials in `exp(-1j w_k)`,
 `w_k = k·(π or 2π)/n`; `scipy.signal.lfilter(b, a, v)` = direct-form recursion.
 -/
